@@ -15,6 +15,9 @@ func main() {
 		os.Exit(2)
 	}
 	prop := os.Args[1]
+	if len(os.Args) >= 3 && os.Args[2] == "--stress-child" {
+		stressChild() // race-detector build of the C14 stress driver (no TLC, no tracing)
+	}
 	tier := os.Getenv("VERIF_TIER")
 	if tier == "" {
 		tier = "quick"
